@@ -197,26 +197,64 @@ deriving Repr, DecidableEq
 """
 
 
+# which properties depend on an extractor's output (a failing extractor is a broken tie only for those);
+# modules under harness/translators/ may declare SERVES = [...]; an extractor without an entry serves all.
+SERVES = {
+    "scaled": ["C01", "C03", "C04", "C05", "C06", "C07", "C08", "C09", "C11", "C14", "C15"],
+    "md5_resets": ["C11"],
+}
+
+
+def _serves_discovered():
+    import importlib
+    import sys
+    d = os.path.join(VERIF, "harness", "translators")
+    sys.path.insert(0, os.path.join(VERIF, "harness"))
+    out = {}
+    if os.path.isdir(d):
+        for f in sorted(os.listdir(d)):
+            if f.endswith(".py") and f != "__init__.py":
+                m = importlib.import_module("translators." + f[:-3])
+                sv = getattr(m, "SERVES", None)
+                for name, _ in m.EXTRACTORS:
+                    if sv is not None:
+                        out[name] = list(sv)
+    return out
+
+
+def _section(text, name):
+    m = re.search(r"-- BEGIN " + re.escape(name) + r"\n(.*?)-- END " + re.escape(name) + r"\n", text, re.S)
+    return m.group(1) if m else None
+
+
 def run():
-    report = {"inputs": {}, "outputs": {}, "ok": True}
+    """Regenerate Generated.lean.  Every extractor writes its own marked section; an extractor that no longer
+    recognises the source FAILS CLOSED for the properties it serves (report['failed']) and its previous section is
+    kept only so that the unrelated sections can still be rebuilt."""
+    report = {"inputs": {}, "outputs": {}, "ok": True, "failed": []}
+    serves = dict(SERVES)
+    serves.update(_serves_discovered())
+    old = open(OUT).read() if os.path.exists(OUT) else ""
     parts = [HEADER]
-    try:
-        for name, fn in EXTRACTORS + _discover():
-            parts.append(fn(report))
-    except Unrecognised as e:
-        report.update(ok=False, failed=e.what, why=e.why)
-        return False, report
-    except (OSError, ValueError) as e:
-        report.update(ok=False, failed="io", why=str(e))
-        return False, report
+    for name, fn in EXTRACTORS + _discover():
+        try:
+            text = fn(report)
+        except Exception as e:  # noqa: BLE001  (Unrecognised, or any parser failure: fail closed)
+            report["failed"].append({"extractor": name, "what": getattr(e, "what", type(e).__name__),
+                                     "why": getattr(e, "why", repr(e)), "serves": serves.get(name)})
+            text = _section(old, name)
+            if text is None:
+                report.update(ok=False, failed_hard=name, why=repr(e))
+                return False, report
+        parts.append(f"\n-- BEGIN {name}\n{text}-- END {name}\n")
     parts.append("\nend Sm.Gen\n")
     text = "".join(parts)
-    old = open(OUT).read() if os.path.exists(OUT) else None
+    report["ok"] = not report["failed"]
     if old != text:
         with open(OUT, "w") as f:
             f.write(text)
         report["regenerated"] = True
-    return True, report
+    return report["ok"], report
 
 
 if __name__ == "__main__":
